@@ -1367,6 +1367,13 @@ class ServiceClass:
             The response primitie to be sent to the peer (containing a valid
             Status parameter).
         """
+        # The response primitive may be re-used for several responses, so
+        #   clear any optional status elements set by an earlier result
+        #   (the sub-operation counters are maintained by the service class)
+        for keyword in rsp.STATUS_OPTIONAL_KEYWORDS:
+            if not keyword.startswith("NumberOf"):
+                setattr(rsp, keyword, None)
+
         # Check the callback's returned Status dataset
         if isinstance(status, Dataset):
             # Check that the returned status dataset contains a Status element
